@@ -31,6 +31,12 @@ impl Write for FaultyW {
         }
     }
     fn flush(&mut self) -> io::Result<()> { Ok(()) }
+    /// a writer with its OWN vectored write (as files and sockets have): one plan entry answers the whole call, and the
+    /// accepted byte count may end anywhere, also strictly inside a later slice
+    fn write_vectored(&mut self, bufs: &[io::IoSlice<'_>]) -> io::Result<usize> {
+        let all: Vec<u8> = bufs.iter().flat_map(|b| b.iter().copied()).collect();
+        self.write(&all)
+    }
 }
 struct FaultyR { data: Vec<u8>, pos: usize, plan: Vec<Sx>, fired: Rc<RefCell<usize>> }
 impl Read for FaultyR {
@@ -409,6 +415,7 @@ pub fn run_tmp(args: &[Sx]) -> Sx {
                 }
             }
             let sorter = match b.build() { Ok(s) => s, Err(_) => { *built.borrow_mut() = false; snap(); return; } };
+            // (a build that fails although its directory exists is reported below)
             snap();
             let exit2 = exit.clone();
             let input = (0..n as u64).map(|i| { if exit2 == "panic_input" && i as usize == at { snap(); panic!("planned input panic"); } ((i * 7919) % 101, i) });
@@ -430,6 +437,9 @@ pub fn run_tmp(args: &[Sx]) -> Sx {
         emit(a("oracle-only"));
         emit(Sx::L(vec![a("unwound"), a(r.is_err() as u8)]));
         emit(Sx::L(vec![a("built"), a(*built.borrow() as u8)]));
+        // only a configured directory that does not exist may make build() fail; state left behind by EARLIER sorters of
+        // this process (earlier cases) must not
+        if !*built.borrow() && wh != "missing" { emit(a("ORACLE-FAIL:build-failed-although-the-configured-directory-exists")); }
         let cfg_abs = if wh == "relchdir" { conf.clone() } else { cfg.clone() };
         emit(Sx::L(vec![a("cfg"), hex(cfg_abs.strip_prefix(root.path()).unwrap().as_os_str().as_bytes())]));
         emit(tag("before", before));
